@@ -12,6 +12,7 @@ pub struct Env {
     pub snaps: Arc<Mutex<Vec<Snap>>>,
     pub quiescent_at: Arc<Mutex<Vec<u64>>>,
     pub single: bool,
+    pub idxs: Vec<u64>,
 }
 
 impl Env {
@@ -58,7 +59,7 @@ impl Env {
                 Res::Unit
             }
             Op::Snap => {
-                let s = self.h.snap(&self.sh.clock, false);
+                let s = self.h.snap(&self.sh.clock, false, &self.idxs);
                 self.snaps.lock().unwrap().push(s);
                 Res::Unit
             }
@@ -68,7 +69,7 @@ impl Env {
         self.recs.lock().unwrap().push(Rec { th, idx, op, call, ret, call_ns, res, wrote });
         if op == Op::Settle && self.single {
             self.quiescent_at.lock().unwrap().push(ret);
-            let s = self.h.snap(&self.sh.clock, true);
+            let s = self.h.snap(&self.sh.clock, true, &self.idxs);
             self.snaps.lock().unwrap().push(s);
         }
     }
@@ -97,7 +98,7 @@ pub fn configure_world(p: &Program) {
 pub fn run_program(p: &Program) -> Result<Trace, String> {
     let _ = stretto::verif::take_evict_rounds();
     rt::world::setup_mode();
-    let (h, sh) = build(&p.cfg, p.flavor).map_err(|e| e.to_string())?;
+    let (h, sh) = build(&p.cfg, p.flavor).map_err(|e| format!("{:?}", e))?;
     let env = Arc::new(Env {
         h,
         sh,
@@ -105,6 +106,7 @@ pub fn run_program(p: &Program) -> Result<Trace, String> {
         snaps: Arc::new(Mutex::new(Vec::new())),
         quiescent_at: Arc::new(Mutex::new(Vec::new())),
         single: p.threads.len() <= 1,
+        idxs: p.keys().iter().map(|k| p.cfg.build_key(*k).0).collect(),
     });
     // deterministic pre-state
     for (i, op) in p.setup.iter().enumerate() {
@@ -158,6 +160,7 @@ pub fn run_program(p: &Program) -> Result<Trace, String> {
             len: 0,
             metrics: None,
             workers: rt::thread::workers(),
+            estimates: vec![],
         });
         rt::world::finish_mode();
         let t = Trace {
@@ -175,7 +178,7 @@ pub fn run_program(p: &Program) -> Result<Trace, String> {
     rt::settle();
     let at = tick(&env.sh.clock);
     env.quiescent_at.lock().unwrap().push(at);
-    let fin = env.h.snap(&env.sh.clock, true);
+    let fin = env.h.snap(&env.sh.clock, true, &env.idxs);
     env.snaps.lock().unwrap().push(fin);
     rt::world::finish_mode();
     let t = Trace {
